@@ -314,6 +314,100 @@ CHECKS["C11"] = dict(
     technique="Lean 4 tiling-invariant / count / aspect / termination proofs + statement-level deque/heapq correspondence + exact clause evaluation",
     design="§7 C11")
 
+
+# ---------------------------------------------------------------------------------------------------------------------
+# Session 3 addenda (appended to the texts above; DESIGN.md §11.10).  TEXT_ADD extends level_claimed.text, NOTE_ADD the
+# level_note, TECH_ADD the technique.
+TIE_TECH = " + translator tie (Lean definitions regenerated from the current Python source text and proved equal to the model)"
+TIE_TEXT = (" Translator tie (every run): the straight-line kernels this property rests on ({fns}) are re-translated from the CURRENT "
+            "source text of frame/geometry/geometry.py{extra} into Lean and kernel-checked equal to the hand-written model functions for all "
+            "inputs over every linearly ordered field, so for these functions the theorems are about what the source says now, not about "
+            "a sampled model; the translator itself is checked by executing the generated definitions at Float against the real Python.")
+TEXT_ADD = {
+    "C18": TIE_TEXT.format(fns="all 18: bounding_box, area, duplicate, point_inside, is_inside, touches, area_overlap, overlap, almost_eq, "
+                               "find_location, split_horizontal, split_vertical, split, x_cuttable, y_cuttable, aspect_ratio, __mul__, __eq__", extra=""),
+    "C17": TIE_TEXT.format(fns="circle_circle_intersection_area", extra=" / tools/force/fruchterman_reingold.py")
+           + " The caller total_intersection_area is proved non-negative and equal to twice the sum over unordered pairs of the real lens "
+             "area; the search covers the whole double range with two independent 60-digit oracles (acos and atan2 forms).",
+    "C06": TIE_TEXT.format(fns="bounding_box, area, area_overlap, almost_eq, find_location", extra="")
+           + " Module.create_stog, has_stog and the netlist-load call site are in the model: loading only reorders the rectangles of each "
+             "module (netlist_load_only_reorders) and has_stog holds exactly when some rectangle can serve as trunk (netlist_hasStog_iff).",
+    "C02": TIE_TEXT.format(fns="bounding_box, x_cuttable, y_cuttable, split_horizontal, split_vertical, duplicate", extra="")
+           + " Also proved for histories that flag cells fixed in place on the same object (history_conserve, flagged_then_uncut); the read "
+             "accessors (num_rectangles, num_modules, allocation_rectangle, allocation_module, check_compatible, max_refinement_depth) are "
+             "modelled, compared on every run and proved consistent with the cell list.",
+    "C12": TIE_TEXT.format(fns="bounding_box, x_cuttable, y_cuttable", extra="")
+           + " griddify (repaired in /repo 42542ef: the x and y sweeps are repeated until a round cuts nothing; termination and fuel-irrelevance "
+             "proved, griddify_loop_terminates) leaves no refinable cell x- or y-cuttable at any side line of any result cell "
+             "(griddify_no_crossing, no side hypothesis any more), a second griddify is the identity (griddify_idempotent), and one round of "
+             "the old code is proved to fail exactly in the region griddifyOnce_failure_region; the former open finding "
+             "C12-griddify-x-before-y is closed.",
+    "C11": TIE_TEXT.format(fns="bounding_box, area, aspect_ratio, split_horizontal, split_vertical, split, duplicate", extra=""),
+    "C03": TIE_TEXT.format(fns="bounding_box, area, area_overlap, __mul__", extra="")
+           + " Object histories (modules moved in place / via recenter_rectangles between two allocations) are part of the correspondence run.",
+    "C01": TIE_TEXT.format(fns="bounding_box, area, area_overlap, is_inside, overlap", extra=""),
+    "C04": " The emitted YAML TEXT itself is modelled for the writer's subset (emitText compared byte for byte with ruamel's output of "
+           "Netlist.write_yaml, parseText with read_yaml, on every run) and Netlist(n.write_yaml()) = n is proved down to the characters "
+           "(text_parse_emit, text_roundtrip_createStog, text_dump_stable_createStog, text_emit_injective): the ruamel text layer is no longer "
+           "in the trusted base for the writer's subset; what remains trusted there is float<->decimal conversion (float(repr(x)) = x) and "
+           "the sampled fidelity of the text model.",
+    "C05": " Wire length, fixed rectangles and centres are also stated on the source DOCUMENT (wireLength_of_document, "
+           "fixedRectangles_of_document, center_of_document) and applied to a concrete document; invalid rectangle region names and regions on "
+           "hard rectangles are proved rejected; duplicate keys are covered at the text level (malformed-text stream).",
+    "C07": " The property's last sentence is stated on the values value()/evalexpr() return (solve_exposed_model_satisfies, "
+           "exposed_reading_exact); managers created one after another on a store that is NEVER reset each encode exactly their own constraints "
+           "(session_exact; stream with stores of thousands of nodes and rect-like weights up to 1e3); variable names and model variables "
+           "correspond one to one (names_faithful).",
+    "C08": " The statement is also made on the VALUE rect.solve returns (solve_return_sound: unsat answer = no orthogon meets the bound, sat "
+           "answer = the returned rectangles are the boxes of an orthogon meeting the bound, trunk first); get_alloc / select_box / area are "
+           "modelled, compared bit for bit and composed (pipeline_found_iff: allocation -> select_box -> definecoords -> area -> solve returns "
+           "a shape iff an orthogon meets the bound); snapped grids have no sliver below the tolerance (snap_no_sliver).",
+    "C10": " The COMPLETE system optimize_allocation posts to GEKKO — declarations, constants, capacity / area / centroid / rigid-offset / "
+           "dispersion / net-centre equations and every objective term with its alpha weighting — is generated by the Lean model and compared "
+           "node-for-node with the captured GEKKO model on every run; machine-checked: the posted system puts every centre in the die "
+           "(posted_centres_in_die), centroid rows are area-weighted means (posted_area_centroid, posted_centroid_in_cell_hull), the objective "
+           "equals alpha*wire-length + (1-alpha)*dispersion; the solver hypothesis is reduced to 'variable bounds and posted rows hold at the "
+           "returned point' (constants discharged) and under it extract_solution cannot raise; glbfloor_correct_posted_from_die composes "
+           "C01 -> C03 -> C10 with no start-state hypothesis. Live runs now include mirrored flippable hard modules, multi-rectangle fixed "
+           "modules, specialised regions and max_iter=None at the quick tier.",
+    "C13": " force_algorithm is proved to return for every well-formed input (force_returns); visualize and the payload the algorithm never "
+           "reads (names, rectangles) cannot change the centres (visualize_same_layout, force_payload_irrelevant, deterministic); "
+           "total_intersection_area counts every unordered pair once per order (composed with the real lens area in C17); zero-iteration "
+           "and fixed out-of-die modules are left where they are, as the code does. The visualize write-back defect of the unchanged code "
+           "was repaired (/repo 9b1b061).",
+    "C14": " Best-of-n keeps the first strictly smallest finite wirelength (best_of_n; non-finite wirelengths => AssertionError, modelled); "
+           "hard non-terminal centres are dropped after the layout (centres_after_layout); several layouts per process on different dies are judged.",
+    "C15": " For polygons given by vertices: is_point_inside_polygon is proved to be the parity of the vertical edges strictly to the right "
+           "(pip_closed_form), independent of start vertex and orientation; for every vertex list satisfying the executable boundary condition "
+           "tracesGrid (evaluated by the driver on every generated polygon; proved for all rectangles and all histogram/staircase polygons) the "
+           "matrix handed to Strop is exactly the cell set (matrix_of_traced_polygon), a decomposition is returned iff a single-trunk "
+           "decomposition exists (traced_polygon_decomposes_iff), and the rectangles' total area equals the shoelace area (traced_polygon_area).",
+    "C16": " Including ~x, +x, builtin sum(), Ineq(expr, any operand, op) for all five operators and both operand orders "
+           "(ineq_normalisation, cmp_dispatch), and the exception class of every operator the classes do not define (unsupported_operators).",
+}
+NOTE_ADD = {
+    "C02": " Open finding C02-huge-die-rounding-overlap (dies >= ~5e6 units with non-dyadic coordinates: refinement raises on valid allocations; "
+           "same root as the C20 sqrt area tolerance).",
+    "C10": " Solver hypothesis now SolverMeetsPostedVars (+ KeysDistinct). A module entirely on blockages makes glbfloor raise KeyError before "
+           "optimising: not a return, outside the quantifier.",
+    "C08": " The cost bound comes from the greedy helper (Windows DLL), which is not modelled.",
+    "C15": " tracer -> tracesGrid is not proved (run-time monitor); the open finding C15-decimal-decomposition has a second mechanism (epsilon "
+           "absorbed in `x - eps` once eps < ulp(x)/2).",
+    "C04": " read_yaml's file-handle route repaired first (/repo 7eb1f6f).",
+}
+TECH_ADD = {p: TIE_TECH for p in ("C18", "C17", "C06", "C02", "C12", "C11", "C03", "C01")}
+TECH_ADD["C04"] = " + byte-level model of the emitted YAML text (emit/parse round trip proved)"
+TECH_ADD["C10"] = " + node-for-node correspondence of the complete posted GEKKO system"
+for _p, _t in TEXT_ADD.items():
+    CHECKS[_p]["text"] += _t
+for _p, _t in NOTE_ADD.items():
+    CHECKS[_p]["note"] += _t
+for _p, _t in TECH_ADD.items():
+    CHECKS[_p]["technique"] += _t
+for _p in CHECKS:
+    CHECKS[_p]["note"] += (" Every run also reports which anchored statement lines the harness executed (coverage.anchored_line_coverage) and "
+                           "multiplies its case budget when an anchored function differs from the committed AST fingerprint baseline.")
+
 NOT_APPLICABLE = {}
 
 def main():
